@@ -6,6 +6,33 @@ import t2
 LIMIT = 10.0   # quadratic growth gives 16, linear 4, n log n about 4.5; amortised doubling of a builder up to 8
 
 
+def confirm_time(family, n, times=3):
+    """wall time is the one measurement here that other load on the machine can distort (allocation counts are exact): a
+    time-only failure must REPRODUCE — the family is measured again, alone, `times` more times, and counts only if every
+    repetition shows the same superlinear growth. A genuinely quadratic family gives a ratio near 16 every time."""
+    for _ in range(times):
+        try:
+            p = subprocess.run([t2.HARNESS, "cost", str(n), family], stdout=subprocess.PIPE, stderr=subprocess.PIPE, text=True,
+                               env=dict(os.environ, GOGC="100", GOMEMLIMIT="6GiB"), timeout=1500)
+        except subprocess.TimeoutExpired:
+            return True
+        if p.returncode != 0:
+            return True
+        ok = False
+        for line in p.stdout.split("\n"):
+            line = line.strip()
+            if line.startswith("{") and '"starting"' not in line:
+                try:
+                    r = json.loads(line)
+                except Exception:
+                    continue
+                if r.get("family") == family and r.get("time_ratio", 0) > LIMIT and r.get("time_ns_64n", 0) > 50_000_000:
+                    ok = True
+        if not ok:
+            return False
+    return True
+
+
 def run(tier, seed, work, st):
     fails = []
     cov = {}
@@ -45,7 +72,7 @@ def run(tier, seed, work, st):
             ratio = max(r["alloc_ratio"], r["mallocs_ratio"])
             # the work done: wall time between 16n and 64n (minimum of three runs each); judged only when the larger run took
             # long enough (50 ms) for the ratio to be more than timer noise — a linear family at these sizes takes a few ms
-            if r.get("time_ratio", 0) > LIMIT and r.get("time_ns_64n", 0) > 50_000_000:
+            if r.get("time_ratio", 0) > LIMIT and r.get("time_ns_64n", 0) > 50_000_000 and confirm_time(r["family"], n):
                 fails.append({"property": "C20", "class": "superlinear-time:" + r["family"],
                               "what": "%s (%s): time grows by a factor %.1f from 16n to 64n (n=%d): %.1f ms -> %.1f ms" % (r["family"], r["op"], r["time_ratio"], r["n"], r["time_ns_16n"] / 1e6, r["time_ns_64n"] / 1e6),
                               "case": json.dumps(r), "tokens": "vharness cost %d  # family %s" % (n, r["family"])})
@@ -54,6 +81,6 @@ def run(tier, seed, work, st):
                               "what": "%s (%s): allocation grows by a factor %.1f (bytes) / %.1f (mallocs) from n=%d to 4n" % (r["family"], r["op"], r["alloc_ratio"], r["mallocs_ratio"], r["n"]),
                               "case": json.dumps(r), "tokens": "vharness cost %d  # family %s" % (n, r["family"])})
     cov.update({"evaluations": len(rows_all), "distinct_nontrivial": len(set(r["family"] for r in rows_all if r["alloc_n"] > 0)),
-                "rule": "one measurement per repetition family and size: runtime.MemStats TotalAlloc/Mallocs deltas around the operation for n and 4n (GC forced before); a family is linear when both ratios are <= %.0f and its wall time (minimum of three runs) between 16n and 64n grows by at most the same factor (judged only when the larger run takes more than 50 ms); distinct_nontrivial = families with a non-zero allocation" % LIMIT,
+                "rule": "one measurement per repetition family and size: runtime.MemStats TotalAlloc/Mallocs deltas around the operation for n and 4n (GC forced before); a family is linear when both ratios are <= %.0f and its wall time (minimum of three runs) between 16n and 64n grows by at most the same factor (judged only when the larger run takes more than 50 ms, and only when the growth reproduces in three further measurements of that family alone); distinct_nontrivial = families with a non-zero allocation" % LIMIT,
                 "samples": rows_all[:3], "growth_table": [{k: r.get(k) for k in ("family", "op", "n", "alloc_ratio", "mallocs_ratio", "time_ratio", "time_ns_64n")} for r in rows_all]})
     return fails, [], cov
